@@ -531,10 +531,10 @@ def stalled_case(ctx, case):
                         break
                     time.sleep(0.001)
                 time.sleep(0.05)
-            t0 = time.time()
+            t0 = time.monotonic()
             conn.disconnect(immediate=bool(case.get('immediate')))
             state = world.settle(timeout=20.0)
-            took = time.time() - t0
+            took = time.monotonic() - t0
         except Exception as e:
             if type(e).__name__ == 'HarnessError':
                 raise
@@ -596,12 +596,12 @@ def many_reconnects_case(ctx, case):
         conn.register_packet_listener(on_ka, cb.play.KeepAlivePacket)
         try:
             conn.connect()
-            deadline = time.time() + 120
-            last = (-1, time.time())
-            while count[0] < n and not errs and time.time() < deadline:
+            deadline = time.monotonic() + 120
+            last = (-1, time.monotonic())
+            while count[0] < n and not errs and time.monotonic() < deadline:
                 if count[0] != last[0]:
-                    last = (count[0], time.time())
-                elif time.time() - last[1] > 8:
+                    last = (count[0], time.monotonic())
+                elif time.monotonic() - last[1] > 8:
                     break               # no progress: stuck
                 time.sleep(0.005)
             reached = count[0]
